@@ -67,3 +67,16 @@ func BatchSize() uint64 {
 func TanIndexBlockSize() int64 {
 	return tan.VerifC09IndexBlockSize()
 }
+
+// IndexEntry mirrors tan's indexEntry.
+type IndexEntry = tan.VerifC09IndexEntry
+
+// TanIndexUpdate is tan's index.update.
+func TanIndexUpdate(entries []IndexEntry, e IndexEntry) []IndexEntry {
+	return tan.VerifC09IndexUpdate(entries, e)
+}
+
+// TanIndexQuery is tan's index.query.
+func TanIndexQuery(entries []IndexEntry, low uint64, high uint64) ([]IndexEntry, bool) {
+	return tan.VerifC09IndexQuery(entries, low, high)
+}
